@@ -201,14 +201,48 @@ def rule_R3(ctx, repo, base, imm, mut):
     rfi, rebinds = make_mutable_rebinds(repo)
     # (a) every caching method reads and writes the same single slot and returns the stored value
     caching = []
+    known = getattr(repo, 'known_functions', None)
+    # a private method the confirmed tree does not have, called as self.<name>() from a method of the same class, is part
+    # of that caller: its slot reads and writes are the caller's
+    absorbed = {}
+    part_of_caller = set()
+    if known is not None:
+        for fi in repo.functions.values():
+            if fi.cls is None:
+                continue
+            for c in common.iter_calls(fi.node):
+                if isinstance(c.func, ast.Attribute) and isinstance(c.func.value, ast.Name) and c.func.value.id in ('self', 'cls'):
+                    h = repo.lookup_method(fi.cls, c.func.attr)
+                    if h is not None and h.qualname not in known and h.name.startswith('_') and not h.name.startswith('__') and h is not fi:
+                        absorbed.setdefault(fi.qualname, []).append(h)
+                        part_of_caller.add(h.qualname)
+
+    def cache_use_closed(fi, depth=0):
+        rd, wr = cache_use(fi)
+        rd, wr = set(rd), set(wr)
+        if depth < 3:
+            for h in absorbed.get(fi.qualname, []):
+                a, b = cache_use_closed(h, depth + 1)
+                rd |= a
+                wr |= b
+        return rd, wr
     for fi in repo.functions.values():
         if fi.cls is None:
             continue
-        rd, wr = cache_use(fi)
+        if fi.qualname in part_of_caller or common.inlined_away(repo, fi):
+            continue
+        rd, wr = cache_use_closed(fi)
         if not rd and not wr:
             continue
         caching.append(fi)
         key = 'slot:%s' % fi.qualname.replace('bitcoin.', '')
+        if absorbed.get(fi.qualname) and (cache_use(fi) != (rd, wr)):
+            if len(rd) == 1 and rd == wr:
+                r.undecided(key, fi.site, 'the slot %s is read here and filled in the helper(s) %s: stored and returned values were not compared' % (sorted(rd), [h.name for h in absorbed[fi.qualname]]))
+            else:
+                r.violated(key, fi.site, 'caching method (with its helpers %s) reads slots %s but writes slots %s: another method\'s cached identifier is overwritten or never filled'
+                           % ([h.name for h in absorbed[fi.qualname]], sorted(rd), sorted(wr)))
+            continue
         if len(rd) == 1 and rd == wr:
             slot = list(rd)[0]
             # the value stored is the value returned
@@ -225,7 +259,7 @@ def rule_R3(ctx, repo, base, imm, mut):
     # one writer per slot per class hierarchy position
     by_slot = {}
     for fi in caching:
-        for s in cache_use(fi)[1]:
+        for s in cache_use_closed(fi)[1]:
             by_slot.setdefault(s, []).append(fi)
     for s, fis in sorted(by_slot.items()):
         names = {f.name for f in fis}
